@@ -205,10 +205,27 @@ impl Run {
         push_line(&mut st, self.now_ms(), node, ev, obj);
     }
 
-    /// Normalise hook fields (peer ids to node indexes, connection ids to dense indexes).
+    /// Normalise hook fields (peer ids to node indexes, connection ids to dense indexes) and
+    /// resolve the emitting node like `record_hook` does.
     pub fn normalise_fields(&self, fields: &Value) -> Value {
         let mut st = self.state.lock().unwrap();
-        normalise(&mut st, -1, "", fields.clone())
+        let node: i64 = if let Some(Value::String(pid)) = fields.get("node") {
+            st.pid_to_node.get(pid).copied().unwrap_or(-1)
+        } else if let Some(ap) = fields.get("ap").and_then(Value::as_u64) {
+            st.ap_to_node.get(&ap).copied().unwrap_or(-1)
+        } else if let (Some(gid), Some(Value::String(origin))) =
+            (fields.get("gid").and_then(Value::as_u64), fields.get("origin"))
+        {
+            st.conn_side_to_node
+                .get(&(gid, origin.clone()))
+                .copied()
+                .unwrap_or(-1)
+        } else {
+            -1
+        };
+        let mut v = normalise(&mut st, -1, "", fields.clone());
+        v["node"] = node.into();
+        v
     }
 
     pub fn record_panic(&self, msg: String) {
